@@ -29,13 +29,18 @@ def model_allowed(ctx, sc):
         return {"success"}
     out = set()
     codes = {"raise": [1, 7], "exit": [2], "exit-locked": [2], "sigterm": [2], "sysexit": [3]}
+    for k in sc["kinds"]:
+        if k.startswith("raise:"):
+            codes[k] = [3] if k.split(":")[1] in ("KeyboardInterrupt", "GeneratorExit") else ([2] if k == "raise:BrokenProcessPool" else [1, 8])
     kinds = [sc["kinds"][i % len(sc["kinds"])] for i in fail]
     for first, kind in zip(fail, kinds):
         completed = [codes[kind]] + [[0]] * (sc["tasks"] - 1)
         r = ctx.model.call(1400, completed)
-        out.add({0: "success", 1: "ValueError", 2: "RuntimeError"}[r[0]])
+        out.add({0: "success", 1: ("other:" + kind.split(":")[1]) if kind.startswith("raise:") else "ValueError", 2: "RuntimeError"}[r[0]])
     if {"exit", "exit-locked", "sigterm"} & set(kinds):
-        out.add("RuntimeError")  # a dead worker breaks the pool for every pending future
+        out.add("RuntimeError")
+    if "raise:StopIteration" in kinds and sc.get("as_completed"):
+        out.add("RuntimeError")  # PEP 479: a StopIteration leaving the results_as_completed generator becomes RuntimeError  # a dead worker breaks the pool for every pending future
     return out
 
 
@@ -91,7 +96,9 @@ def part_a(ctx):
             fail = [tasks // 2]
         else:
             fail = r.sample(range(tasks), min(nfail, tasks))
-        kinds = r.choice([["raise"], ["exit"], ["raise", "exit"], ["exit-locked"], ["sigterm"], ["sysexit"], ["raise", "sysexit"], ["exit-locked", "raise"]])
+        kinds = r.choice([["raise"], ["exit"], ["raise", "exit"], ["exit-locked"], ["sigterm"], ["sysexit"], ["raise", "sysexit"], ["exit-locked", "raise"],
+                          ["raise:TimeoutError"], ["raise:CancelledError"], ["raise:StopIteration"], ["raise:KeyboardInterrupt"],
+                          ["raise:BrokenProcessPool"], ["raise:GeneratorExit"], ["raise:MemoryError"], ["raise:TimeoutError", "raise"]])
         scs.append(dict(tasks=tasks, workers=workers, fail=fail, kinds=kinds, as_completed=r.random() < 0.3,
                         delays=[r.choice([0, 0, 0.005, 0.02, 0.05]) for _ in range(tasks)]))
     # run in batches, each in its own process, with a wall-clock bound per scenario
